@@ -240,8 +240,8 @@ def main(prop):
     rep = common.Report(args)
     if args.replay:
         return replay_case(args, rep)
-    N = {"quick": 14, "thorough": 20}[args.tier]
-    timeout_s = {"quick": 120, "thorough": 900}[args.tier]
+    N = {"quick": 14, "thorough": 17}[args.tier]
+    timeout_s = {"quick": 300, "thorough": 2400}[args.tier]
     rep.bounds = {"free_mode_max_len": N, "alphabet": "all Unicode scalar values (21-bit)", "per_query_timeout_s": timeout_s,
                   "outside": "documents longer than N scalar values outside the template families; item construction beyond the reference checks; DOM views"}
     rep.assumptions += [
